@@ -232,7 +232,10 @@ fn source_read_fault(ctx: &mut Ctx) {
 /// a bias to the last one, the write whose error only a flush can still collect. Compress may
 /// fail; if it reports success the archive must be complete.
 fn compress_write_fault(ctx: &mut Ctx) {
-    let stdin = gen::chance(1, 3);
+    // a third: the library writer into a tokio::fs::File; its anonymous temporary chunk file is
+    // seen by the seam as "<anon-temp>"
+    let lib = gen::chance(1, 3);
+    let stdin = !lib && gen::chance(1, 3);
     let mut spec = scen::gen_compress_spec(true, false);
     spec.metadata = scen::cli_safe_metadata(&spec.metadata);
     let max_len = gen::len_cap(spec.comp, &spec.cfg, if gen::chance(1, 6) { 3 << 20 } else { 96 * 1024 });
@@ -259,14 +262,19 @@ fn compress_write_fault(ctx: &mut Ctx) {
                 s.add_fault(path, crate::sys::Op::Write, base + *nth, action.clone());
             }
         });
+        if lib {
+            let r = scen::compress_lib_to_file(&spec, source.clone());
+            scen::put_file("a.cba", &r.archive);
+            return r.outcome;
+        }
         let r = scen::run(&scen::compress_args(&spec, if stdin { None } else { Some("src.bin") }, "a.cba", false));
         scen::set_stdin(None);
-        r
+        r.outcome
     };
     // 1. fault-free: which files does it write, and how often
     let sched1 = scen::draw_schedule();
     let r1 = run(None);
-    if !r1.outcome.is_success() {
+    if !r1.is_success() {
         return;
     }
     let writes: std::collections::BTreeMap<String, u64> = crate::sys::with(|s| {
@@ -296,8 +304,8 @@ fn compress_write_fault(ctx: &mut Ctx) {
     let r2 = run(Some((target.as_str(), nth, action.clone())));
     let fired = crate::sys::with(|s| !s.fault_fired.is_empty());
     let archive = scen::get_file("a.cba").unwrap_or_default();
-    let desc = json!({"writer": if stdin { "cli-stdin" } else { "cli-file" }, "options": spec.json(), "source": sspec.json(), "schedules": [sched1, sched2],
-        "write_fault": {"file": target, "write": nth, "of": count, "action": format!("{:?}", action), "fired": fired}, "outcome": r2.outcome.short()});
+    let desc = json!({"writer": if lib { "lib-into-file" } else if stdin { "cli-stdin" } else { "cli-file" }, "options": spec.json(), "source": sspec.json(), "schedules": [sched1, sched2],
+        "write_fault": {"file": target, "write": nth, "of": count, "action": format!("{:?}", action), "fired": fired}, "outcome": r2.short()});
     if ctx.want_sample {
         ctx.verdict.sample = Some(desc.clone());
     }
@@ -305,11 +313,14 @@ fn compress_write_fault(ctx: &mut Ctx) {
         return;
     }
     simkit::count("probe:compress-write-fault-fired");
-    if matches!(r2.outcome, Outcome::StepBudget | Outcome::Deadlock) {
-        ctx.fail(&format!("compress-cli:{}", r2.outcome.class()), format!("compress with a failing write ended with {}; {}", r2.outcome.short(), desc));
+    if target.starts_with('<') {
+        simkit::count(if r2.is_success() { "probe:write-fault-on-anonymous-temp-file:success" } else { "probe:write-fault-on-anonymous-temp-file:error" });
+    }
+    if matches!(r2, Outcome::StepBudget | Outcome::Deadlock) {
+        ctx.fail(&format!("compress-cli:{}", r2.class()), format!("compress with a failing write ended with {}; {}", r2.short(), desc));
         return;
     }
-    if r2.outcome.is_success() {
+    if r2.is_success() {
         let complete = decode_archive(&archive).ok().and_then(|ra| ref_unpack(&ra, &archive).ok()).map(|u| u == **source).unwrap_or(false);
         if !complete {
             ctx.fail(
@@ -320,7 +331,7 @@ fn compress_write_fault(ctx: &mut Ctx) {
         }
     }
     ctx.verdict.nontrivial = true;
-    ctx.verdict.shape = (count << 20) ^ (nth << 8) ^ (target.len() as u64) ^ ((stdin as u64) << 60) ^ ((r2.outcome.is_success() as u64) << 61);
+    ctx.verdict.shape = (count << 20) ^ (nth << 8) ^ (target.len() as u64) ^ ((stdin as u64) << 60) ^ ((lib as u64) << 59) ^ ((r2.is_success() as u64) << 61);
 }
 
 pub fn run(ctx: &mut Ctx) {
